@@ -185,8 +185,11 @@ class LocMap:
                     pos = attr # should be an integer
 
                 if field == SLICE_STOP_ATTR:
-                    # loc selections are inclusive, so iloc gets one more
-                    pos += 1 #type: ignore
+                    # loc selections are inclusive, so iloc gets one more (one less when walking down)
+                    if key.step is None or key.step > 0:
+                        pos += 1 #type: ignore
+                    else:
+                        pos = None if pos - 1 < 0 else pos - 1 #type: ignore
 
                 yield pos
 
